@@ -178,11 +178,55 @@ def c14_cases(rng, count):
         out.append(case([("fa", content)], ["fa"], lines))
     return out
 
+# ---- C16: edits keep the text valid UTF-8
+U8_CHARS = ["é", "©", "¡", "¿", "ß", "中", "文", "€", "日", "𝄞", "ل", "\u0301", "a", "b", "x", " ", "Z", "1", "."]
+U8_PATS = ["[^é ]", "[^a-z]", "[¡-¿]", "©+", "©", ".", "[^ ]", "é*", "(é)*x", "[é中]", "[^中]", "x*", "$", "^", "\\<", "\\>", "[[:alpha:]]", "[^[:alpha:]]",
+           "[^a]", "¿*", "[^©]", "..", ".$", "^.", "[^x]*", "(.)(.)", "a|é", "[é-ÿ]", "[^é-ÿ]", "ß", "[ -~]", "[^ -~]", "€", "[^€]", "𝄞", "[^𝄞]", "\\(.\\)"]
+U8_REPS = ["-", "&&", "é", "\\0\\0", "", "<&>", "\\1", "中"]
+def u8_line(rng):
+    return "".join(rng.choice(U8_CHARS) for _ in range(rng.below(12)))
+def c16_cases(rng, count):
+    """substitutes, globals and line commands over multi-byte text whose continuation bytes (80..BF) are themselves
+    the code points of other characters in the patterns"""
+    out = []
+    for _ in range(count):
+        n = 1 + rng.below(5)
+        content = "\n".join(u8_line(rng) for _ in range(n)) + "\n"
+        lines = []
+        for _ in range(1 + rng.below(5)):
+            k = rng.below(12)
+            rg = rng.choice(["", "%", "1", "$", "1,2", ".,$", "2", "1,$"])
+            if k < 7:
+                d = rng.choice(["/", "/", ",", "#"])
+                lines.append("%ss%s%s%s%s%s%s" % (rg, d, rng.choice(U8_PATS), d, rng.choice(U8_REPS), d, rng.choice(["", "g", "g", "g"])))
+            elif k == 7: lines.append(rng.choice(["se ic", "se noic"]))
+            elif k == 8: lines.append("%sg/%s/s/%s/%s/g" % (rg, rng.choice(U8_PATS), rng.choice(U8_PATS), rng.choice(U8_REPS)))
+            elif k == 9: lines += [rng.choice(["a", "i", "c"]), u8_line(rng), "."]
+            elif k == 10: lines += [rg + "y a", "pu a"]
+            else: lines.append(rng.choice(["u", "redo", rg + "d", "/%s/" % rng.choice(U8_PATS)]))
+        lines += ["%p", "q!"]
+        out.append(case([("fa", content)], ["fa"], lines))
+    return out
+
 GLOB_PATS = ["m", "a", "^$", "o", "x", "1", "."]
 GLOB_CMDS = ["d", "s/m/M/", "s/o/0/g", "pu a", "a\\", "-1d", "+1d", "-2,-1d|+1", "d|d", ".,+1d", "+1,+2d", "k a", "p", "s/$/!/", "-1,.d", "1d", "$d", "pu a|-1d", "g/o/d", "g/1/s/m/W/", "v/m/d", "y a|pu a", "+1s/./Q/", "+1d|-1", "m0", "m$", "co0", "co.", "t$", "m+1", "-1m$", "m0|+1", "+1m0", "+1m0|+2", "co0|d", "i\\", "c\\", "s/^/>/|-1d", "g/./s/$/;/", "1,2d", "$m0"]
 
-def c15_cases(rng, count):
+def c15_growth_cases(rng, count):
+    """globals whose commands add lines while the buffer crosses the 512-line capacity step of the line arrays"""
     out = []
+    for _ in range(count):
+        n = 470 + rng.below(60)
+        content = "\n".join("n%d" % i for i in range(1, n + 1)) + "\n"
+        lines = ["1,2y a"]
+        pat = rng.choice(["0$", "5$", "1", "^n4", "n..$"])
+        cmd = rng.choice(["pu a", "co.", "t.", "y a|pu a", "t$", "s/$/!/|co.", "co0", "a\\"])
+        lines.append("%s%s/%s/%s" % (rng.choice(["", "%", "400,$"]), rng.choice(["g", "g", "v"]), pat, cmd))
+        lines += ["=", "$p", "u", "=", "q!"]
+        out.append(case([("fa", content)], ["fa"], lines))
+    return out
+
+def c15_cases(rng, count):
+    out = c15_growth_cases(rng, max(2, count // 300))
     for _ in range(count):
         n = 3 + rng.below(6)
         pool = ["m%d" % i for i in range(1, 8)] + ["a", "b", "z", "oo", "mo", "x1", "o1"]
